@@ -234,11 +234,22 @@ def run(ctx: Context, rep) -> None:
         raise AnalysisError("C15.decode: decoder mapped over the native "
                             "iterator not found")
     dparams = [p for p in to_dict.params() if p != "self"]
-    fors = [n for n in to_dict.body_nodes() if isinstance(n, ast.For)]
+    # the pairing: `for v, a in zip(example, declarations)` as a loop or as
+    # the generator of a dict comprehension
+    pair = None  # (zip call, target tuple, key expr or None, where)
+    for n in to_dict.body_nodes():
+        if isinstance(n, ast.For) and isinstance(n.target, ast.Tuple):
+            pair = (n.iter, n.target, None, n)
+            break
+        if isinstance(n, ast.DictComp) and len(n.generators) == 1 and \
+                isinstance(n.generators[0].target, ast.Tuple) and \
+                not n.generators[0].ifs:
+            pair = (n.generators[0].iter, n.generators[0].target, n.key, n)
+            break
     ok = False
     construct = "<none>"
-    if fors:
-        it = fors[0].iter
+    if pair is not None:
+        it = pair[0]
         construct = short(it, 90)
         if isinstance(it, ast.Call) and isinstance(
                 it.func, ast.Name) and it.func.id == "zip" and len(it.args) == 2:
@@ -252,18 +263,23 @@ def run(ctx: Context, rep) -> None:
     dec = [c for c in to_dict.calls() if ast.unparse(c.func).endswith(
         "decode_array")]
     ok_dec = False
-    if dec and fors and isinstance(fors[0].target, ast.Tuple):
-        t0, t1 = [e.id for e in fors[0].target.elts]
+    if dec and pair is not None and len(pair[1].elts) == 2 and all(
+            isinstance(e, ast.Name) for e in pair[1].elts):
+        t0, t1 = [e.id for e in pair[1].elts]
         kwd = {k.arg: k.value for k in dec[0].keywords}
         ok_dec = dotted(kwd.get("np_bytes")) == t0 and dotted(
             kwd.get("attribute")) == t1 and (
                 "batch_size" not in kwd or (isinstance(
                     kwd["batch_size"], ast.Constant) and kwd["batch_size"].value == 0))
         # stored under the attribute's name
-        stores = [n for n in to_dict.body_nodes() if isinstance(n, ast.Assign)
-                  and isinstance(n.targets[0], ast.Subscript)]
-        ok_dec = ok_dec and any(
-            ast.unparse(s.targets[0].slice) == f"{t1}.name" for s in stores)
+        if pair[2] is not None:
+            ok_dec = ok_dec and ast.unparse(pair[2]) == f"{t1}.name" and any(
+                x is dec[0] for x in ast.walk(pair[3].value))
+        else:
+            stores = [n for n in to_dict.body_nodes() if isinstance(n, ast.Assign)
+                      and isinstance(n.targets[0], ast.Subscript)]
+            ok_dec = ok_dec and any(
+                ast.unparse(s.targets[0].slice) == f"{t1}.name" for s in stores)
     rep.ob("C15.decode", ok_dec, loc=to_dict.loc(dec[0]) if dec else
            to_dict.loc(), where=to_dict.qualname,
            construct=short(dec[0], 100) if dec else "<none>",
